@@ -22,6 +22,11 @@ CHECKS = {
             "For every (query, dataset, arguments) case within the deviation bound and every j in 0..=rows: the starting-vertex pull counter is 0 before the first next(), at most 1 + the index of the start vertex that owns row j after j rows (ownership from the reference evaluator), and unchanged by dropping the iterator. States = distinct (rows yielded, vertices pulled) pairs; every run is an execution of the real engine.",
             "Strictly lazy adapter; cases whose rows disagree with the reference are left to C01.",
             "DESIGN.md §4 C03"),
+    "C04": ("exploration",
+            "bounded-exhaustive program-space enumeration x environment choice over which hints the adapter acts on: each case runs on the real engine with a hint-ignoring adapter and with a pruning adapter (all hints; on disagreement one hint at a time, then all-but-the-culprits)",
+            "Every (query, dataset, arguments) case of two enumerated spaces (k<=2 with all hint-relevant filter operators; two-edge structures under optional/fold/recurse + one filter/tag deviation, k<=2 thorough) is executed unpruned and pruned: the pruner discards start vertices and neighbours whose properties lie outside statically_required_property / the per-context dynamically_required_property().resolve() candidate, or that lack a mandatory edge with a surviving destination. Row multisets must agree and hint computation must not panic.",
+            "Candidate membership by the C06 reference, not Range::contains; mandatory edges one level deep; coerced_to_type() is not acted on (not part of the property). One known finding (`>=` on a tag) is attributed by a narrow predicate and the remaining hints of such cases are re-checked with the culprit ignored.",
+            "DESIGN.md §4 C04"),
     "C05": ("exploration",
             "bounded-exhaustive program-space enumeration with an in-adapter monitor: every resolve_property call is checked against ResolveInfo::required_properties()",
             "Every resolve_property call made while executing every accepted query within the deviation bound over five data-rich graphs must name a property listed (once) in the vertex's required_properties() hint.",
